@@ -57,3 +57,48 @@ func VerifC14Offender() {
 	_ = base
 	vCover("c14-offender-end")
 }
+
+// VerifC14UnsubscribeQueued: a client unsubscribes while messages for the removed filter are
+// still queued behind its full inflight window, then acknowledges: nothing panics, the
+// connection and a witness stay up.
+func VerifC14UnsubscribeQueued() {
+	be := newRecBackend()
+	be.ClientInflightMessages = 1
+	w, wconn := startClient(be, mkConnect("w", true, nil), false)
+	c, conn := startClient(be, mkConnect("c", vBool("clean"), nil), false)
+	s := packet.NewSubscribe()
+	s.ID = 1
+	s.Subscriptions = []packet.Subscription{{Topic: "x", QOS: symQOS("subqos")}}
+	conn.in <- s
+	vQuiesce()
+	pub, _ := mkClient(be.MemoryBackend, "p", true)
+	n := vLen("messages", 2, 3)
+	for i := 0; i < n; i++ {
+		vAssert(be.MemoryBackend.Publish(pub, &packet.Message{Topic: "x", Payload: []byte{byte(i)}, QOS: symQOS("pubqos")}, nil) == nil, "publish")
+		vQuiesce()
+	}
+	u := packet.NewUnsubscribe()
+	u.ID = 2
+	u.Topics = []string{"x"}
+	conn.in <- u
+	vQuiesce()
+	// acknowledge whatever is in flight so that the queued messages are dequeued
+	for round := 0; round < n; round++ {
+		for i := 0; i < conn.sentCount(); i++ {
+			if p, ok := conn.sentAt(i).(*packet.Publish); ok && p.Message.QOS > 0 {
+				if p.Message.QOS == 1 {
+					conn.in <- &packet.Puback{ID: p.ID}
+				} else {
+					conn.in <- &packet.Pubcomp{ID: p.ID}
+				}
+				vQuiesce()
+			}
+		}
+	}
+	vAssert(!conn.isClosed() && !chanClosed(c.Closed()), "the client that unsubscribed stays connected")
+	vAssert(!wconn.isClosed() && !chanClosed(w.Closed()), "the witness stays connected")
+	conn.in <- packet.NewPingreq()
+	vQuiesce()
+	vAssert(countType(conn, packet.PINGRESP) == 1, "the broker still answers the client")
+	vCover("c14-unsubscribe-queued-end")
+}
